@@ -33,7 +33,8 @@
 (***************************************************************************)
 EXTENDS Naturals, Sequences, FiniteSets, TLC
 
-CONSTANTS Accounts,   \* 1..NA
+CONSTANTS LongFrames, \* numbers of successful inner frames of the call "LS" ({} in most configurations)
+          Accounts,   \* 1..NA
           Keys,       \* storage keys 1..NK
           MaxDepth    \* bound on the history length explored
 
@@ -49,7 +50,7 @@ Start(s) ==
                IF s = 1 THEN NoAcct
                ELSE IF s = 2 THEN (IF a = 1 THEN [NoAcct EXCEPT !.ex = TRUE, !.nonce = 1, !.st = [k \in Keys |-> IF k = 1 THEN 1 ELSE 0], !.bal = 5]
                                    ELSE NoAcct)
-               ELSE (IF a = 1 THEN [NoAcct EXCEPT !.ex = TRUE, !.nonce = 3, !.code = 1, !.st = [k \in Keys |-> 2], !.bal = 9, !.ftOwn = 4]
+               ELSE (IF a = 1 THEN [NoAcct EXCEPT !.ex = TRUE, !.nonce = 3, !.code = 1, !.st = [k \in Keys |-> 2], !.ss = 1, !.bal = 9, !.ftOwn = 4]
                      ELSE [NoAcct EXCEPT !.ex = TRUE, !.st = [k \in Keys |-> IF k = 1 THEN 1 ELSE 0]])],
    refund |-> 0,
    logs |-> <<0, 0>>,
@@ -78,6 +79,9 @@ Mut(s, c) ==
     [] op = "IN" -> [Touch(s, a) EXCEPT !.acct[a].nonce = s.acct[a].nonce + 1]
     [] op = "SD" -> [Touch(s, a) EXCEPT !.acct[a].st[x] = y]
     [] op = "SS" -> [Touch(s, a) EXCEPT !.acct[a].ss = x]
+    [] op = "GC" -> s                                  \* GetCommittedState: a query made inside the history
+    [] op = "LS" -> (* x successful inner frames: Snapshot(); IncreaseNonce(a) each, none reverted *)
+                    [Touch(s, a) EXCEPT !.acct[a].nonce = s.acct[a].nonce + x]
     [] op = "SC" -> [Touch(s, a) EXCEPT !.acct[a].code = x]
     [] op = "AB" -> [s EXCEPT !.acct[a].bal = s.acct[a].bal + x]
     [] op = "SB" -> IF s.acct[a].bal >= x THEN [s EXCEPT !.acct[a].bal = s.acct[a].bal - x] ELSE s
@@ -113,6 +117,8 @@ Mutators(s) ==
   {<<"IN", a, 0, 0>> : a \in Accounts} \cup
   {<<"SD", a, k, v>> : a \in Accounts, k \in Keys, v \in {0, 1, 2}} \cup
   {<<"SS", a, v, 0>> : a \in Accounts, v \in {0, 1}} \cup
+  {<<"GC", a, 0, 0>> : a \in Accounts} \cup
+  {<<"LS", 1, n, 0>> : n \in LongFrames} \cup
   {<<"SC", a, c, 0>> : a \in Accounts, c \in {1, 2}} \cup
   {<<"AB", a, x, 0>> : a \in Accounts, x \in {0, 3}} \cup
   UNION {{<<"SB", a, x, 0>> : x \in Lat(s.acct[a].bal)} : a \in Accounts} \cup
@@ -163,7 +169,8 @@ DoMut(c) ==
   /\ Bound /\ c \in Mutators(st) /\ Callable(st, c)
   /\ st' = Mut(st, c)
   /\ hist' = Append(hist, c) /\ surv' = Append(surv, c)
-  /\ UNCHANGED <<snaps, nextId, start>>
+  /\ nextId' = IF c[1] = "LS" THEN nextId + c[3] ELSE nextId     \* the inner snapshots are never reverted to
+  /\ UNCHANGED <<snaps, start>>
 
 Snapshot ==
   /\ Bound
@@ -221,5 +228,5 @@ SnapIdsOrdered == \A i \in 1..Len(snaps) : /\ snaps[i][1] < nextId
 (* reverting restores exactly (action property) *)
 RevertRestores == [][\A i \in 1..Len(snaps) :
                        (hist' = Append(hist, <<"REV", snaps[i][1], 0, 0>>)) => st' = snaps[i][2]]_vars
-TypeOK == /\ nextId \in 0..MaxDepth /\ Len(hist) <= MaxDepth /\ Len(surv) <= Len(hist)
+TypeOK == /\ nextId \in Nat /\ Len(hist) <= MaxDepth /\ Len(surv) <= Len(hist)
 =============================================================================
